@@ -45,6 +45,7 @@ structure CNode where
   kind : Kind
   ins : List InRef := []
   captures : Bool := false      -- error capture activated (`exception_time_series`)
+  sos : Bool := false           -- the node type declares `schedule_on_start`
 deriving Repr
 
 structure CInst where
@@ -453,7 +454,10 @@ def nodeStart (p : CProg) : Nat → Nat → Nat → Time → St → UserRes
       let sc := (lookup p.scripts id).getD []
       let (s1, _, _) := runSOps p inst idx t false (sc.getD 0 []) s none
       let s2 := s1.setNode inst idx { s1.node inst idx with k := 1 }
-      { st := markStarted (s2.logf s!"B {lbl} {t} {qStr (s2.node inst idx).ns t}") }
+      let s3 := markStarted (s2.logf s!"B {lbl} {t} {qStr (s2.node inst idx).ns t}")
+      -- `schedule_on_start`: booked AFTER the user start hook (node.cpp start_impl), so it replaces a later time
+      -- the hook booked; the node's own scheduler re-arms that one after the start-cycle evaluation
+      { st := if cn.sos then schedAbs p (depthFuel p) s3 inst idx t else s3 }
     | .thrower id =>
       let s1 := s.logf s!"s {lbl} {t}"
       let s2 := s1.setNode inst idx { n with cs := n.cs + 1 }
